@@ -208,6 +208,41 @@ def run_stream(gen, msgs, extra_cutsets, gaps_cycle, tier, stats: Stats | None, 
         sr.dispose()
 
 
+def run_twin_streams(gen, msgs_a, msgs_b, cutsets, stats: Stats | None):
+    """Two sockets in one process receive their own streams, segment by segment in alternation: each delivers exactly
+    its own messages (nothing of the receive path may be shared between sockets)."""
+    case = {"gen": gen, "twin": [[ser.to_json(m) for m in msgs_a], [ser.to_json(m) for m in msgs_b]], "cutsets": cutsets}
+    rigs = [StreamRig(gen, msgs_a, {"gen": gen, "msgs": case["twin"][0]}), StreamRig(gen, msgs_b, {"gen": gen, "msgs": case["twin"][1]})]
+    try:
+        for cs in cutsets:
+            segs = []
+            for sr in rigs:
+                n = len(sr.stream)
+                cuts = sorted({1 + c % (n - 1) for c in cs}) if n > 1 else []
+                segs.append([sr.stream[a:b] for a, b in zip([0] + cuts, cuts + [n])])
+                del sr.rig.received[:]
+            for k in range(max(len(x) for x in segs)):
+                for sr, sg in zip(rigs, segs):
+                    if k < len(sg):
+                        sr.tr.feed(sg[k])
+                        _turns(sr.rig.loop, 1 + k % 3)
+            for i, sr in enumerate(rigs):
+                sr.rig.loop.settle()
+                out = [((h.to_address, h.from_address, h.packet_id, h.message_id, h.message_length), m) for _, h, m in sr.rig.received]
+                if len(sr.rig.net.conns) != 1 or not sr.tr.alive:
+                    raise Violation("C13:reset", f"two sockets fed in alternation (cuts {list(cs)[:6]}): socket {i} reset its connection", case)
+                if out != sr.base:
+                    raise Violation("C13:differs", f"two sockets fed in alternation (cuts {list(cs)[:6]}): socket {i} delivered {len(out)} "
+                                                   f"messages, its unsegmented stream delivers {len(sr.base)}", case)
+        if stats is not None:
+            stats.evaluations += len(cutsets)
+            stats.nt_disjoint += len(cutsets)
+            stats.classes["twin-sockets"] += len(cutsets)
+    finally:
+        for sr in rigs:
+            sr.dispose()
+
+
 def _strategy(gen: int, small: bool, burst: bool = False):
     kinds = None
     if small or burst:
@@ -229,11 +264,12 @@ def shards(tier: str):
             out.append({"gen": gen, "small": True, "n": n, "k": k})
         for k in range(2):
             out.append({"gen": gen, "small": False, "burst": True, "n": n // 2, "k": k})
+        out.append({"gen": gen, "small": False, "twin": True, "n": n // 2})
     return out
 
 
 def floors(tier: str):
-    f = {"single-cuts": 100, "segmentations": 10000, "connection-lost-mid-stream": 100, "burst-of-frames": 30, "long-stall-mid-frame": 100}
+    f = {"single-cuts": 100, "segmentations": 10000, "connection-lost-mid-stream": 100, "burst-of-frames": 30, "long-stall-mid-frame": 100, "twin-sockets": 100}
     f["exhaustive-2cuts" if tier == "quick" else "exhaustive-3cuts"] = 3
     return f
 
@@ -241,6 +277,12 @@ def floors(tier: str):
 def run_shard(spec, seed: int, tier: str):
     stats = Stats(ID)
     gen = spec["gen"]
+
+    if spec.get("twin"):
+        one = st.lists(gens.message(gen, direction="s2c").map(lambda km: km[1]), min_size=2, max_size=5)
+        strat = st.tuples(one, one, st.lists(st.lists(st.integers(0, 10000), min_size=2, max_size=12), min_size=3, max_size=8))
+        drive(stats, lambda s: given_test(strat, lambda c: stats.guard(run_twin_streams, gen, c[0], c[1], c[2], stats), s, spec["n"]), seed)
+        return stats.result()
 
     def body(case):
         msgs, cutsets, gaps = case
@@ -251,6 +293,13 @@ def run_shard(spec, seed: int, tier: str):
 
 
 def replay(case):
+    if "twin" in case:
+        try:
+            run_twin_streams(case["gen"], [ser.from_json(m) for m in case["twin"][0]], [ser.from_json(m) for m in case["twin"][1]],
+                             case["cutsets"], None)
+        except Violation as v:
+            return v.as_dict()
+        return None
     msgs = [ser.from_json(m) for m in case["msgs"]]
     try:
         sr = StreamRig(case["gen"], msgs, {"gen": case["gen"], "msgs": case["msgs"]})
